@@ -11,20 +11,20 @@ import (
 )
 
 type Obligation struct {
-	Name    string
-	Kind    string
-	Props   []string
-	Func    string
-	Pos     string
-	Desc    string
-	Guard   Term
-	Goal    Term
-	Bounded string
-	Splits  []Term // edge guards into the obligation's block: a failed attempt is retried per edge
-	SplitBlk []int // predecessor block of each split edge
-	Blk     int    // block the obligation belongs to (-1: whole function)
-	fv      *FuncVC
-	lemma   *lemmaVC
+	Name     string
+	Kind     string
+	Props    []string
+	Func     string
+	Pos      string
+	Desc     string
+	Guard    Term
+	Goal     Term
+	Bounded  string
+	Splits   []Term // edge guards into the obligation's block: a failed attempt is retried per edge
+	SplitBlk []int  // predecessor block of each split edge
+	Blk      int    // block the obligation belongs to (-1: whole function)
+	fv       *FuncVC
+	lemma    *lemmaVC
 }
 
 type fieldStep struct {
@@ -52,18 +52,20 @@ type modEntry struct {
 }
 
 type loopInfo struct {
-	ord      int
-	head     *ssa.BasicBlock
-	body     map[*ssa.BasicBlock]bool
-	spec     *LoopSpec
-	havoc    map[string]bool
-	havocAll bool
-	preState *State
-	state    *State
-	env      *Env
+	ord       int
+	head      *ssa.BasicBlock
+	body      map[*ssa.BasicBlock]bool
+	spec      *LoopSpec
+	havoc     map[string]bool
+	oldWrites map[string]bool // heaps in which the loop may write memory that existed before the loop
+	havocAll  bool
+	preState  *State
+	state     *State
+	env       *Env
 }
 
 type FuncVC struct {
+	closedSeen map[string]bool // heap-closedness facts already emitted for (cell read, state)
 	P     *Program
 	e     *Enc
 	fn    *ssa.Function
@@ -76,37 +78,36 @@ type FuncVC struct {
 	tups  map[ssa.Value][]Term
 	addrs map[ssa.Value]*Addr
 
-	entry    *State
-	alloc0   Term
-	env0     *Env // parameters bound, entry state
-	mods     []modEntry
-	blockIn  map[*ssa.BasicBlock]Term
-	blockEnd map[*ssa.BasicBlock]Term
-	blockOut map[*ssa.BasicBlock]*State
-	edgeCond map[[2]int]Term
-	loops    map[*ssa.BasicBlock]*loopInfo
-	loopList []*loopInfo
-	nguard   int
-	cur      Term   // current guard
-	st       *State // current state
-	curBlock *ssa.BasicBlock
-	oblCount map[string]int
-	unsupported []string
-	calleesUsed map[string]bool
-	assumptions map[string]bool
-	epochN   int
-	tableFns map[ssa.Value]*tableRef
-	effCache map[string][]string
+	entry          *State
+	alloc0         Term
+	env0           *Env // parameters bound, entry state
+	mods           []modEntry
+	blockIn        map[*ssa.BasicBlock]Term
+	blockEnd       map[*ssa.BasicBlock]Term
+	blockOut       map[*ssa.BasicBlock]*State
+	edgeCond       map[[2]int]Term
+	loops          map[*ssa.BasicBlock]*loopInfo
+	loopList       []*loopInfo
+	nguard         int
+	cur            Term   // current guard
+	st             *State // current state
+	curBlock       *ssa.BasicBlock
+	oblCount       map[string]int
+	unsupported    []string
+	calleesUsed    map[string]bool
+	assumptions    map[string]bool
+	epochN         int
+	tableFns       map[ssa.Value]*tableRef
+	effCache       map[string][]string
 	tableFnsByName map[string]*TableSpec
-	oblBlk   int // when >= 0: block whose ancestors are relevant for obligations being emitted (loop init edges)
-	anc      map[int]map[int]bool
+	oblBlk         int // when >= 0: block whose ancestors are relevant for obligations being emitted (loop init edges)
+	anc            map[int]map[int]bool
 }
 
 type tableRef struct {
 	tb  *TableSpec
 	key Term
 }
-
 
 func (fv *FuncVC) newGuard(prefix string) Term {
 	fv.nguard++
@@ -475,7 +476,7 @@ func (fv *FuncVC) findLoops() {
 			if b.Dominates(p) { // back edge p -> b
 				li := fv.loops[b]
 				if li == nil {
-					li = &loopInfo{head: b, body: map[*ssa.BasicBlock]bool{b: true}, havoc: map[string]bool{}}
+					li = &loopInfo{head: b, body: map[*ssa.BasicBlock]bool{b: true}, havoc: map[string]bool{}, oldWrites: map[string]bool{}}
 					fv.loops[b] = li
 					fv.loopList = append(fv.loopList, li)
 				}
@@ -545,6 +546,9 @@ func (fv *FuncVC) scanLoopEffects(li *loopInfo) {
 			case *ssa.Store:
 				if h := fv.storeHeapName(x.Addr); h != "" {
 					li.havoc[h] = true
+					if root, ok := addrRoot(x.Addr).(*ssa.Alloc); !ok || !li.body[root.Block()] {
+						li.oldWrites[h] = true
+					}
 				} else {
 					li.havocAll = true
 				}
@@ -552,6 +556,7 @@ func (fv *FuncVC) scanLoopEffects(li *loopInfo) {
 				if m, ok := x.Map.Type().Underlying().(*types.Map); ok {
 					has, val, ln := e.mapHeaps(m)
 					li.havoc[has], li.havoc[val], li.havoc[ln] = true, true, true
+					li.oldWrites[has], li.oldWrites[val], li.oldWrites[ln] = true, true, true
 				}
 			case *ssa.Alloc, *ssa.MakeSlice, *ssa.MakeMap, *ssa.MakeClosure:
 				li.havoc["alloc"] = true
@@ -576,12 +581,14 @@ func (fv *FuncVC) scanLoopEffects(li *loopInfo) {
 					case "append", "copy":
 						if sl, ok := com.Args[0].Type().Underlying().(*types.Slice); ok {
 							li.havoc[e.elemHeap(sl.Elem())] = true
+							li.oldWrites[e.elemHeap(sl.Elem())] = true
 						}
 						li.havoc["alloc"] = true
 					case "delete":
 						if m, ok := com.Args[0].Type().Underlying().(*types.Map); ok {
 							has, val, ln := e.mapHeaps(m)
 							li.havoc[has], li.havoc[val], li.havoc[ln] = true, true, true
+							li.oldWrites[has], li.oldWrites[val], li.oldWrites[ln] = true, true, true
 						}
 					}
 					continue
@@ -598,6 +605,9 @@ func (fv *FuncVC) scanLoopEffects(li *loopInfo) {
 					if hs, ok := fv.contractHeaps(cc, com); ok {
 						for _, h := range hs {
 							li.havoc[h] = true
+							if len(cc.Modifies) > 0 {
+								li.oldWrites[h] = true
+							}
 						}
 						li.havoc["alloc"] = true
 						continue
@@ -608,9 +618,28 @@ func (fv *FuncVC) scanLoopEffects(li *loopInfo) {
 				if r, ok := x.Iter.(*ssa.Range); ok {
 					if m, ok := r.X.Type().Underlying().(*types.Map); ok {
 						li.havoc[fv.iterHeap(m)] = true
+						li.oldWrites[fv.iterHeap(m)] = true
 					}
 				}
 			}
+		}
+	}
+}
+
+// addrRoot: the value an address is derived from through field and element selections
+func addrRoot(v ssa.Value) ssa.Value {
+	for {
+		switch a := v.(type) {
+		case *ssa.FieldAddr:
+			v = a.X
+		case *ssa.IndexAddr:
+			// an element of an array behind a pointer; an element of a slice is rooted in the slice value (not an Alloc)
+			if _, isPtr := a.X.Type().Underlying().(*types.Pointer); !isPtr {
+				return a.X
+			}
+			v = a.X
+		default:
+			return v
 		}
 	}
 }
